@@ -23,7 +23,8 @@ RULE = ("unit level: JSON documents (all scalar kinds incl. big ints, dyadic flo
         "the parent's uid, some without uid, some not maps; random (target, patch) pairs with nulls for merge-patch.  "
         "flow level: real ResourceFunctions (inline resource, ResourceTemplate through the cache, 0-2 overlays, create "
         "overlay; directives in each) x owned x owner namespace equal/different/None x namespaced/cluster-scoped x "
-        "create pass / patch pass (drifted or matching live object, 0-3 pre-existing references); directives coming from "
+        "create pass / patch pass (drifted or matching live object, 0-3 pre-existing references); annotation and label "
+        "values that are text, int, bool, float, null, list or map, static or computed from the inputs; directives coming from "
         "exactly one origin (template only / overlayRef return only / inline only / create overlay only); SEQUENCES of 2-4 "
         "reconciles in one process sharing koreo's caches (a ResourceTemplate that already names the managed object, used by "
         "an owning function and then by non-owning / other-namespace / other-parent functions; create, delete, create "
@@ -187,6 +188,10 @@ def gen_value(rng, depth, p_dir=0.2, p_special=0.05):
     return d
 
 
+# annotation / label values that are not strings: the code sends them as they are and records them as they are
+NONSTRING = [3, 0, -7, True, False, 2.5, 0.0, None, [], ["a", 1], {}, {"k": 1}, 2 ** 70, [None], {"n": None}]
+
+
 def gen_annotations(rng, allow_key=True):
     r = rng.random()
     if r < 0.25:
@@ -195,7 +200,8 @@ def gen_annotations(rng, allow_key=True):
         return {}
     if r < 0.5:
         return rng.choice([None, "x", 0, [], ["annotations"], True, 1.5, ""])
-    an = {rng.choice(["a", "note", "kéy"]): rng.choice(TEXTS) for _ in range(rng.choice([1, 2]))}
+    an = {rng.choice(["a", "note", "kéy"]): (rng.choice(TEXTS) if rng.random() < 0.55 else rng.choice(NONSTRING))
+          for _ in range(rng.choice([1, 2, 3]))}
     if allow_key and rng.random() < 0.25:
         an[ANNOT] = rng.choice(["mine", "{}", ""])
     if rng.random() < 0.2:
@@ -222,7 +228,8 @@ def gen_target(rng, depth=3):
         if rng.random() < 0.5:
             md["namespace"] = "ns"
         if rng.random() < 0.4:
-            md["labels"] = gen_value(rng, 1)
+            md["labels"] = gen_value(rng, 1) if rng.random() < 0.5 else \
+                {rng.choice(["app", "tier"]): rng.choice(TEXTS + NONSTRING) for _ in range(rng.choice([1, 2]))}
         an = gen_annotations(rng)
         if an != "absent":
             md["annotations"] = an
@@ -555,7 +562,8 @@ def small_docs(depth):
 def holder_shapes():
     absent = object()
     metas = [absent, {}, {"name": "w"}, None, "x", [], ["annotations"], 0, "annotations", True]
-    annos = [absent, {}, {"a": "b"}, {ANNOT: "mine"}, {"a": "b", ANNOT: ""}, None, "x", [], [ANNOT], 0]
+    annos = [absent, {}, {"a": "b"}, {ANNOT: "mine"}, {"a": "b", ANNOT: ""}, None, "x", [], [ANNOT], 0,
+             {"n": 3}, {"b": True, "s": "x"}, {"f": 2.5, "z": None}, {"l": ["a", 1], "m": {"k": 1}}]
     spots = ["none", "top", "metadata", "annotations", "list-item"]
     for m in metas:
         for a in (annos if isinstance(m, dict) else [absent]):
@@ -673,17 +681,49 @@ def gen_flow_value(rng, depth, p_dir):
     return d
 
 
+# what every flow reconcile receives as `inputs`; targets may compute values from it (`=inputs.replicas` …)
+FLOW_INPUTS = {"replicas": 3, "flag": True, "off": False, "ratio": 2.5, "text": "blue", "items": ["a", 1],
+               "cfg": {"k": 1}}
+COMPUTED = ["=inputs.replicas", "=inputs.flag", "=inputs.off", "=inputs.ratio", "=inputs.text", "=inputs.items",
+            "=inputs.cfg", "=inputs.replicas + 1", "=inputs.replicas > 2"]
+FLOW_NONSTRING = [3, 0, True, False, 2.5, None, ["a", 1], {"k": 1}]
+
+
+def gen_meta_value(rng):
+    """an annotation / label value: mostly text, regularly a non-string, static or computed from the inputs"""
+    r = rng.random()
+    if r < 0.5:
+        return rng.choice(FLOW_TEXTS)
+    if r < 0.75:
+        return rng.choice(FLOW_NONSTRING)
+    return rng.choice(COMPUTED)
+
+
+def staticize(v):
+    """the document with every `=inputs.…` expression replaced by a static value (for ValueFunction returns,
+    whose own `inputs` are not ours)"""
+    if isinstance(v, dict):
+        return {k: staticize(x) for k, x in v.items()}
+    if isinstance(v, list):
+        return [staticize(x) for x in v]
+    if isinstance(v, str) and v.startswith("=inputs."):
+        return {"=inputs.replicas": 3, "=inputs.flag": True, "=inputs.off": False, "=inputs.ratio": 2.5,
+                "=inputs.text": "blue", "=inputs.items": ["a", 1], "=inputs.cfg": {"k": 1},
+                "=inputs.replicas + 1": 4, "=inputs.replicas > 2": True}.get(v, "x")
+    return v
+
+
 def gen_flow_doc(rng, p_dir=0.5, with_meta=True):
     """A target fragment (resource / template / overlay body)."""
     doc = {}
     if with_meta and rng.random() < 0.7:
         md = {}
         if rng.random() < 0.6:
-            md["labels"] = {rng.choice(["app", "tier"]): rng.choice(FLOW_TEXTS)}
+            md["labels"] = {k: gen_meta_value(rng) for k in rng.sample(["app", "tier", "n"], rng.choice([1, 1, 2]))}
         r = rng.random()
-        if r < 0.3:
-            md["annotations"] = {"note": rng.choice(FLOW_TEXTS)}
-        elif r < 0.38:
+        if r < 0.4:
+            md["annotations"] = {k: gen_meta_value(rng) for k in rng.sample(["note", "count", "on"], rng.choice([1, 2, 3]))}
+        elif r < 0.46:
             md["annotations"] = {}
         if rng.random() < p_dir * 0.6:
             md["x-koreo-compare-as-set"] = ["finalizers"]
@@ -870,6 +910,26 @@ def gen_sequence(rng, ns):
     return plan
 
 
+def metadata_value_scenarios():
+    """every kind of annotation / label value (text, int, bool, float, null, list, map; static and computed from
+    the inputs) x where it comes from (inline resource, template, inline overlay, overlayRef return, create overlay),
+    create pass then drifted patch pass."""
+    values = ["text", 3, 0, True, False, 2.5, None, ["a", 1], {"k": 1}] + COMPUTED
+    base = {"kind": "flow", "owned": True, "namespaced": True, "ns": "ns1", "owner_ns": "ns1", "mode": "patch",
+            "live_refs": [dict(OTHER_REF)], "drift": True, "malformed": None, "create_overlay": None,
+            "overlays": [], "overlay_via_vf": [False, False]}
+    clean = {"spec": {"n": 3}}
+    for v in values:
+        for holder in ("annotations", "labels"):
+            frag = {"metadata": {holder: {"note": "plain", "val": copy.deepcopy(v)}}}
+            yield {**base, "source": "inline", "doc": {**copy.deepcopy(frag), **copy.deepcopy(clean)}}
+            yield {**base, "source": "template", "doc": {**copy.deepcopy(frag), **copy.deepcopy(clean)}}
+            yield {**base, "source": "inline", "doc": copy.deepcopy(clean), "overlays": [copy.deepcopy(frag)]}
+            yield {**base, "source": "inline", "doc": copy.deepcopy(clean), "overlays": [copy.deepcopy(frag)],
+                   "overlay_via_vf": [True, False]}
+            yield {**base, "source": "inline", "doc": copy.deepcopy(clean), "create_overlay": copy.deepcopy(frag)}
+
+
 def namespace_scenarios():
     """every (namespaced flag x namespace supplied or not x target sets metadata.namespace: no / same / other)
     combination, from an inline resource and from a template, on the create path and on the patch path."""
@@ -1041,7 +1101,7 @@ async def _prepare_fn(scn, owned=None, name="fn", install=True):
             from koreo.value_function.structure import ValueFunction
             await cache.prepare_and_cache(resource_class=ValueFunction, preparer=prepare_value_function,
                                           metadata={"name": f"vf{i}", "resourceVersion": "1"},
-                                          spec={"return": copy.deepcopy(o)})
+                                          spec={"return": staticize(copy.deepcopy(o))})
     p = await drivers.prepare_rf(name, spec)
     fn, err = drivers.unwrap_prepared(p)
     return fn, err, kind
@@ -1102,7 +1162,7 @@ def run_flow(scn, cap: Capture):
             raised = None
             outcome = None
             try:
-                r = await drivers.reconcile_rf(fns[st["owned"]], {}, cl, owner=owner)
+                r = await drivers.reconcile_rf(fns[st["owned"]], copy.deepcopy(FLOW_INPUTS), cl, owner=owner)
                 outcome = drivers.canon_outcome(r.outcome)["cls"]
             except Exception as e:  # noqa: BLE001
                 raised = exn_name(e) or f"other:{type(e).__name__}"
@@ -1394,6 +1454,14 @@ def check_flow(ctx: Ctx, scn, cap, cases, terms, shrink=True):
         if st["step"] == "patch" and st["pre"] is not None:
             ctx.count(f"flow:patch:pre-refs:{len(refs_of(st['pre']))}")
         for c in st["calls"]:
+            if c["method"] in ("POST", "PATCH") and isinstance(c["body"], dict) and isinstance(c["body"].get("metadata"), dict):
+                for holder in ("annotations", "labels"):
+                    h = c["body"]["metadata"].get(holder)
+                    if isinstance(h, dict):
+                        for k, v in h.items():
+                            if k != ANNOT and not isinstance(v, str):
+                                ctx.count(f"flow:sent-{holder}-value:{type(v).__name__}")
+        for c in st["calls"]:
             if c["method"] in ("POST", "PATCH"):
                 inputs = [e[1] for e in st["events"] if e[0] == "prepare"]
                 if inputs and find_directive(inputs[-1]):
@@ -1460,6 +1528,8 @@ def run(ctx: Ctx):
         for scn in directive_origin_scenarios():
             check_flow(ctx, scn, cap, fcases, fterms)
         for scn in namespace_scenarios():
+            check_flow(ctx, scn, cap, fcases, fterms)
+        for scn in metadata_value_scenarios():
             check_flow(ctx, scn, cap, fcases, fterms)
         for scn in sequence_scenarios():
             check_flow(ctx, scn, cap, fcases, fterms)
